@@ -1098,6 +1098,7 @@ def parse_files_leg(o, name, files, wd):
     counts = {}
     n = 0
     good = []
+    exact = undecided = 0
     for f, r in zip(files, results):
         o.add_tlc(r)
         recs = {x["id"]: x for x in core.read_ndjson(f)}
@@ -1107,6 +1108,8 @@ def parse_files_leg(o, name, files, wd):
         for v in r.verdicts:
             key = v["class"] + ":" + v["rule"]
             counts[key] = counts.get(key, 0) + 1
+            exact += v.get("exact", 0)
+            undecided += v.get("undecided", 0)
             o.traces += 1
             rec = recs[v["id"]]
             if v["class"] == "mismatch":
@@ -1768,15 +1771,16 @@ def big_leg(o, name, lattice, nrandom, seed, timeout=2400):
                    "wall_s": round(time.time() - t0, 1)})
 
 
-def float_leg(o, name, extra, seed):
+def float_leg(o, name, extra, seed, family="lattice", rounding=0):
     t0 = time.time()
     wd = core.workdir(f"{o.prop}_{name}")
     shards = core.nshards()
-    files = gen_files(wd, "gen-float", ["--seed", seed, "--extra", extra], shards, "fl")
+    files = gen_files(wd, "gen-float", ["--seed", seed, "--extra", extra, "--family", family, "--rounding", rounding], shards, "fl")
     results = run_tv_shards(files, "TV_Float.tla", "TV_Float.cfg", wd)
     counts = {}
     n = 0
     good = []
+    exact = undecided = 0
     for f, r in zip(files, results):
         o.add_tlc(r)
         recs = {x["id"]: x for x in core.read_ndjson(f)}
@@ -1786,6 +1790,8 @@ def float_leg(o, name, extra, seed):
         for v in r.verdicts:
             key = v["class"] + ":" + v["rule"]
             counts[key] = counts.get(key, 0) + 1
+            exact += v.get("exact", 0)
+            undecided += v.get("undecided", 0)
             o.traces += 1
             rec = recs[v["id"]]
             if v["class"] == "mismatch":
@@ -1798,7 +1804,7 @@ def float_leg(o, name, extra, seed):
                                  "observed": ob, "class": {"E": "Err", "X": "Panic"}.get(ob.get("c"), "Value"),
                                  "msg": ob.get("what"), "loc": ob.get("loc")},
                                 {"a": rec["at"], "b": rec["bt"], "op": op, "form": form, "observed": ob})
-            elif len(good) < 40:
+            elif len(good) < 400:
                 good.append(rec)
     for r_ in good[:2]:
         o.samples.append({"leg": name, "a": r_["at"], "b": r_["bt"], "lt": r_["cmp"]["<"], "div": r_["ar"]["/"]})
@@ -1809,6 +1815,22 @@ def float_leg(o, name, extra, seed):
         if c["cmp"][op][k % 3].get("c") == "B":
             c["cmp"][op][k % 3]["v"] = not c["cmp"][op][k % 3]["v"]
             bad.append(c)
+    # a finite result moved to the neighbouring float (one unit in the last place) must be rejected: NlFloatArith
+    # accepts only THE correctly rounded result
+    nudged = 0
+    for k, r_ in enumerate(good):
+        if nudged >= 10:
+            break
+        op = ["+", "-", "*", "/", "%"][k % 5]
+        obs = r_["ar"][op]
+        fa, fb = r_["a"], r_["b"]
+        ordinary = all(0 < x["e"] < 2047 for x in (fa, fb)) and all(x.get("c") == "F" and 0 < x["e"] < 2047 and 0 < x["l"] < 67108863 for x in obs)
+        if ordinary:
+            c = copy.deepcopy(r_)
+            for x in c["ar"][op]:
+                x["l"] += 1 if k % 2 else -1
+            bad.append(c)
+            nudged += 1
     tried = rej = 0
     if bad:
         bf = os.path.join(wd, "corrupt.ndjson")
@@ -1818,20 +1840,22 @@ def float_leg(o, name, extra, seed):
         rej = sum(1 for v in rr.verdicts if v["class"] == "mismatch")
         if tried != rej:
             raise ToolError(f"{name}: sensitivity self-test failed ({rej}/{tried})")
-    o.legs.append({"leg": name, "pairs": n, "evaluations": n * 33, "verdicts": counts, "sensitivity_tried": tried,
-                   "sensitivity_rejected": rej, "wall_s": round(time.time() - t0, 1)})
+    o.legs.append({"leg": name, "pairs": n, "evaluations": n * 33, "verdicts": counts,
+                   "results_decided_by_exact_rounding": exact - undecided, "results_undecided": undecided,
+                   "sensitivity_tried": tried, "sensitivity_rejected": rej, "wall_s": round(time.time() - t0, 1)})
 
 
 def check_C06(tier, seed):
     o = Outcome("C06", tier, seed, "model_checking")
     o.assumptions = [
         "integer results are compared with exact limb arithmetic (spec/NlBig.tla); quotient and remainder are verified from the observed pair (a = q*b + r, |r| < |b|, sign r = sign a)",
-        "floats: arithmetic is decided exactly on dyadic operands (NlValues) and by the IEEE rules for special values (NlFloat: NaN, infinities, signed zeros); every comparison of every pair is decided from the bit patterns (NlFloat); a finite result that needs rounding is only required to be a float",
+        "floats: every comparison of every pair is decided from the bit patterns (NlFloat); arithmetic with a special value by the IEEE rules for NaN, infinities and signed zeros (NlFloat); every other result of + - * / must be THE correctly rounded value (nearest, ties to even, overflow to infinity, gradual underflow, +0 for an exact zero sum) of the exact real result, decided on limb integers (NlFloatArith), and a remainder must satisfy a = q*b + r exactly with |r| < |b| and the sign of a (q is a recorded witness that the specification verifies)",
         "the error kind for a zero divisor / overflow is not fixed by the documentation: any error kind is accepted (U8)",
     ]
     big_leg(o, "int-lattice", size(tier, "quick", "full"), size(tier, 3200, 200000), seed)
     sem_leg(o, "ops-all-types", [], 16, seed, shards=16, gen_cmd="gen-ops-sharded", sens=10)
     float_leg(o, "float-lattice", size(tier, 10, 120), seed)
+    float_leg(o, "float-rounding", 0, seed, family="rounding", rounding=size(tier, 600, 12000))
     o.extra["exhaustive"] = True
     o.extra["rule"] = ("integer pairs: complete cross product of the boundary lattice (0, +-1, +-2, +-7, +-2^k, +-(2^k+-1), range ends) "
                        "x 11 operators x 3 syntactic forms, plus seeded random pairs; other types: every operator on every pair of "
